@@ -1,4 +1,5 @@
-// vd-pool: drivers for the transaction pool (C37 pool bookkeeping under concurrency, C36 sender admission).
+// vd-pool: drivers for the transaction pool server (C37 pipeline, capacity) and sender admission (C36).
+// The pool object itself (edges, concurrent histories) is driven by the light binary vd-poollin.
 package main
 
 import (
@@ -24,10 +25,6 @@ func main() {
 	}
 	log.InitLog(log.ErrorLog)
 	switch os.Args[1] {
-	case "lin-record": // <histories> <goroutines> <ops per goroutine> <maxtx> [hot]
-		linRecord(atoi(os.Args[2]), atoi(os.Args[3]), atoi(os.Args[4]), atoi(os.Args[5]), len(os.Args) > 6 && os.Args[6] == "hot")
-	case "seq-run": // <maxtx>; stdin: {"calls":[...]} lines
-		seqRun(atoi(os.Args[2]))
 	case "srv-run": // <mode>; stdin: {"steps":[...]} lines
 		srvRun(os.Args[2:])
 	case "sender": // C36
